@@ -282,7 +282,9 @@ def run(ctx: common.Ctx) -> None:
                         badbits ^= bb
                         u_ = space[bb.bit_length() - 1]
                         n_bad += 1
-                        trans.setdefault((kinds[s], kinds[t_], kinds[u_]), []).append([s, t_, u_])
+                        grp = trans.setdefault((kinds[s], kinds[t_], kinds[u_]), [])
+                        if len(grp) < 4000:
+                            grp.append([s, t_, u_])
             ctx.count(n_prem)
             ctx.extra["P2"] = {"space": len(space), "matrix_rows": len(sup), "triples_with_both_premises_true": n_prem,
                                "violating_triples": n_bad, "raw_kind_groups": len(trans)}
@@ -312,9 +314,9 @@ def run(ctx: common.Ctx) -> None:
             for g, cases in sorted(trans.items()):
                 step = max(1, len(cases) // cap)
                 pick = cases[::step][:cap]
-                skipped += len(cases) - len(pick)
                 for k in range(0, len(pick), 20):
                     et.append({"fn": FN + "explain_many", "args": {"src_dir": src, "law": "transitivity", "cases": pick[k:k + 20]}})
+            skipped = n_bad - sum(len(t["args"]["cases"]) for t in et)
             ctx.extra["P2"]["violating_triples_not_individually_classified"] = skipped
             for t, r in pool.imap(et, timeout=900):
                 if bad(t, r):
@@ -415,6 +417,7 @@ def run(ctx: common.Ctx) -> None:
 
             n_tr = 0
             sens = 0
+            u3: set[tuple[str, ...]] = set()
             for t, r in pool.imap(triple_tasks(), timeout=1800):
                 if bad(t, r):
                     continue
@@ -426,8 +429,8 @@ def run(ctx: common.Ctx) -> None:
                 for tr in t["args"]["triples"]:
                     if len({types[i]["s"] for i in tr if types[i]}) == 3:  # type: ignore[index]
                         ctx.nontriv("u3", *tr)
-                    ctx.cell("union3:" + "|".join(sorted(_kf(kinds[i]) for i in tr)))
-            ctx.extra["P4"] = {"triples": n_tr, "permutations": 6 * n_tr,
+                    u3.add(tuple(sorted(_kf(kinds[i]) for i in tr)))
+            ctx.extra["P4"] = {"triples": n_tr, "permutations": 6 * n_tr, "distinct_kind_triples": len(u3),
                                "triples_whose_simplified_repr_depends_on_item_order (not a violation by itself)": sens}
 
     # --- verdicts: one witness per mechanism key first, so that every key is written out ----------------------------
